@@ -297,6 +297,15 @@ pub fn judge(cfg: &Config, case: &Case, l: &mut Local) {
             g!(cfg, l, "extract_base_tag", i, case, extract_base_tag(i).to_string());
             g!(cfg, l, "normalize_field_tag", i, case, normalize_field_tag(i).to_string());
             g!(cfg, l, "get_sequence_config", i, case, { let _ = get_sequence_config(i); });
+            {
+                use swift_mt_message::swift_codes as sc;
+                g!(cfg, l, "swift_error_codes::get_error_info", i, case, sc::metadata::get_error_info(i).map(|x| format!("{x:?}")));
+                g!(cfg, l, "swift_error_codes::get_codes_by_series", i, case, sc::metadata::get_codes_by_series(i).len());
+                g!(cfg, l, "swift_error_codes::get_codes_by_category", i, case, sc::metadata::get_codes_by_category(i).len());
+                g!(cfg, l, "swift_error_codes::is_sepa_country", i, case, sc::regional::is_sepa_country(i));
+                g!(cfg, l, "swift_error_codes::is_valid_charge_code", i, case, sc::charges::is_valid_charge_code(i));
+                g!(cfg, l, "swift_error_codes::is_commodity_currency", i, case, sc::currencies::is_commodity_currency(i));
+            }
             l.eval("helpers", "called", true, hash_str(i));
         }
         Case::ErrorRender { variant, position, original } => {
@@ -345,6 +354,26 @@ pub fn judge(cfg: &Config, case: &Case, l: &mut Local) {
                         swift_mt_message::parser::parse_repetitive_sequence::<swift_mt_message::messages::MT101>(&map, "21")
                             .map(|v| v.len())
                     );
+                    // the generic sequence parser with several body types (fresh tracker each)
+                    {
+                        use swift_mt_message::messages::{MT101, MT104, MT110, MT199, MT204, MT920, MT935, MT940, MT942};
+                        use swift_mt_message::parser::parse_sequences;
+                        macro_rules! ps {
+                            ($t:ty) => {{
+                                let mut t0 = FieldConsumptionTracker::new();
+                                g!(cfg, l, concat!("parse_sequences::<", stringify!($t), ">"), text, case, parse_sequences::<$t>(&map, &mut t0).map(|v| v.len()));
+                            }};
+                        }
+                        ps!(MT101);
+                        ps!(MT104);
+                        ps!(MT110);
+                        ps!(MT199);
+                        ps!(MT204);
+                        ps!(MT920);
+                        ps!(MT935);
+                        ps!(MT940);
+                        ps!(MT942);
+                    }
                     let mut tr = FieldConsumptionTracker::new();
                     let tags: Vec<String> = map.keys().cloned().collect();
                     for t in tags.iter().take(40) {
